@@ -113,7 +113,7 @@ type harnessResult struct {
 }
 
 func defaultCfg(spec HarnessSpec, tier int, deadline time.Time, workers int, verbose bool) Config {
-	cfg := Config{Mode: parseMode(spec.Mode), Unwind: 2000, MaxSteps: 3_000_000, Workers: workers, Tier: tier, QueryMs: 10000, Samples: 40, Deadline: deadline, Verbose: verbose}
+	cfg := Config{Mode: parseMode(spec.Mode), Unwind: 2000, MaxSteps: 3_000_000, Workers: workers, Tier: tier, QueryMs: 25000, Samples: 40, Deadline: deadline, Verbose: verbose}
 	if tier == 1 {
 		cfg.QueryMs = 60000
 		cfg.Samples = 200
